@@ -1,5 +1,6 @@
 import Cadence.Proofs.QueueProps
 import Cadence.Proofs.QueueCheck
+import Cadence.Proofs.Queue0Props
 /-!
 # C08 — queuing sink: every accepted metric reaches the wrapped sink once, in order
 
@@ -81,5 +82,20 @@ theorem quiescent_schedule_settles (s : St M) : workerStep (settleAll s) = none 
 -- non-vacuity: clone, drop the clone, emit on the original: the metric is delivered
 example : ((runLabels (init (some 2) false : St Nat)
     [.clone 0, .drop 1, .emitTry 0 7, .emitCount, .wCheck, .wRecv, .wCount]).map (·.wrappedLog)) = some [7] := by decide
+
+/-! ## capacity 0 (rendezvous channel, model `Cadence.Model.Queue0`) -/
+
+/-- capacity 0: in every reachable state (either worker loop, every interleaving of producers, clones,
+drops, the stopper and the worker, every answer of the wrapped sink) the metrics accepted so far are
+exactly those handed to the wrapped sink, in the same order, plus at most the one in the worker's hand:
+none is lost, duplicated or reordered -/
+theorem rendezvous_fifo_exactly_once {poll hh} {μ : Type} (s : Queue0.St μ) (h : Queue0.Reachable poll hh s) :
+    s.accepted = s.wrappedLog ++ Queue0.inflight s.phase ∧ (Queue0.inflight s.phase).length ≤ 1 :=
+  ⟨(Queue0.reachable_inv s h).deliv, by cases hp : s.phase <;> simp [Queue0.inflight]; split <;> simp⟩
+
+/-- capacity 0: the metric in the worker's hand is handed to the wrapped sink by the worker's next step -/
+theorem rendezvous_in_hand_is_delivered {μ : Type} (s : Queue0.St μ) (m : μ) (hp : s.phase = .got (some m)) :
+    ∃ s', Queue0.step s .wTake = some (s', .none) ∧ s'.wrappedLog = s.wrappedLog ++ [m] := by
+  simp [Queue0.step, hp]
 
 end C08
